@@ -228,6 +228,7 @@ package io
 //@   prop C04 C05 C14
 //@   nopanic
 //@   requires dec != nil
+//@   requires [reader_mode_buffer_has_room] dec.reader != nil ==> dec.buf == nil || len(dec.buf) > 0
 //@   modifies dec.reader, dec.buf, dec.head, dec.tail
 //@   ensures [empty_window] result == dec && same(dec.reader, reader) && dec.head == 0 && dec.tail == 0
 //@   ensures [reader_mode_buffer_has_room] dec.reader != nil ==> dec.buf == nil || len(dec.buf) > 0
